@@ -36,6 +36,12 @@ def spec(tier):
                 pipes=[pipe("fork4", prio=3, at=0, durs=[1, "da", 2, 2], mems=[1, "ma", "ma", "mb"]), pipe("chain2", prio=2, at="ta", durs=[1, 1], mems=[1, "mb"])])
     obs.append(CH(name="overbook_fan_failures", harness="sched.overbook",
                   sym=dict(cpus=I(1, 3), ram=I(2, 8), ma=I(0, 9), mb=I(0, 9), ta=I(0, 3), da=I(1, 2)), fixed=dict(cfg=cfg3), timeout=1500))
+    # two independent chains inside one pipeline that progress unevenly (the second root finishes while the first still runs):
+    # the child of the finished root is ready although an earlier-listed operator is still blocked
+    cfg4 = dict(algo="overbook", pools=1, multi=False, oc=True, K=K,
+                pipes=[pipe("twochains", prio=3, at=0, durs=["da", "db", 1, 2], mems=[1, 1, "ma", 1]), pipe("single", prio=2, at="ta", durs=[2], mems=[1])])
+    obs.append(CH(name="overbook_uneven_chains", harness="sched.overbook",
+                  sym=dict(cpus=I(1, 4), da=I(1, 4), db=I(1, 4), ma=I(0, 9), ta=I(0, 3)), fixed=dict(cfg=cfg4, ram=8, mb=1), timeout=1500))
     tsym = dict(cpus=I(1, 4), ram=I(1, 10), ma=I(0, 12), mb=I(0, 12), ta=I(0, 4))
     for w in ("fail", "ok", "abandoned"):
         obs.append(twin(f"overbook_{w}", "sched.overbook", tsym, dict(cfg=cfg, da=1), w))
